@@ -37,4 +37,59 @@ PROPS = {
             "Clone is the derived field-wise copy",
         ],
     },
+    "C11": {
+        "modules": [T + "C11"],
+        "theorems": [(T + "C11.processed_len_spec", T + "C11"),
+                     (T + "C11.counters_bounded", T + "C11"),
+                     (T + "C11.update_len_no_overflow", T + "C11"),
+                     (T + "C11.too_large_iff", T + "C11"),
+                     (T + "C01.tables", T + "C01")],
+        "modules_extra": [T + "C01"],
+        "extract_keys": ["length MAX", "TOP_VALUE", "length thresholds", "WINDOW_SIZE"],
+        "spec_is_property": True,
+        "streams": {
+            "quick": [("default", "core", 6000), ("embedded", "core", 2000), ("default-dev", "core", 3000)],
+            "thorough": [("default", "core", 60000), ("embedded", "core", 30000), ("naive", "core", 30000),
+                         ("unsafe", "core", 30000), ("default-dev", "core", 30000), ("unsafe-dev", "core", 30000),
+                         ("default", "state", 20000)],
+        },
+        "assumptions": [
+            "counters are modelled in unbounded Nat with the Rust clamps written out; `default-dev` runs the "
+            "same stream with overflow checks and debug assertions enabled, so a wrapped counter panics",
+            "states with len near MAX / 2^32 are injected through the hook rather than reached by feeding 4 GiB "
+            "(thorough tier adds real streams)",
+        ],
+    },
+    "C01": {
+        "modules": [T + "C01"],
+        "theorems": [(T + "C01.tables", T + "C01"),
+                     (T + "C01.params_eq", T + "C01"),
+                     (T + "C01.kat_lovak", T + "C01"),
+                     ("TlshVerif.Ref.pearson_surjective", T + "C01"),
+                     ("TlshVerif.Ref.pearson_length", T + "C01"),
+                     ("TlshVerif.Ref.topval_increasing", T + "C01"),
+                     ("TlshVerif.Ref.topval_growth_15", T + "C01"),
+                     ("TlshVerif.Ref.topval_growth_13", T + "C01"),
+                     ("TlshVerif.Ref.topval_growth_11", T + "C01"),
+                     ("TlshVerif.Ref.topval_bit_lengths", T + "C01")],
+        "spec_is_property": True,
+        "streams": {
+            "quick": [("default", "kat", 0), ("default", "gen", 2500), ("default", "state", 2500),
+                      ("embedded", "gen", 1200), ("embedded", "state", 1200), ("naive", "gen", 1200),
+                      ("default", "gen-large", 3)],
+            "thorough": [("default", "kat", 0), ("default", "gen", 40000), ("default", "state", 40000),
+                         ("embedded", "gen", 20000), ("embedded", "state", 20000), ("naive", "gen", 20000),
+                         ("naive", "state", 20000), ("optdef", "gen", 10000), ("unsafe", "gen", 10000),
+                         ("unsafe", "state", 10000), ("static-sse2", "state", 10000),
+                         ("static-sse41", "state", 10000), ("static-avx2", "state", 10000),
+                         ("default-dev", "gen", 10000), ("default", "gen-large", 40)],
+        },
+        "assumptions": [
+            "f32 arithmetic is modelled by exact integer arithmetic (TlshVerif/F32.lean); validated against the "
+            "hardware by the `state` stream (injected bucket arrays incl. counts ≥ 2^24, 2^31, wrapped)",
+            "select_nth_unstable modelled by its contract (sort-based instance)",
+            "no official TLSH implementation is available offline; reference tables justified by Ref/Justify.lean "
+            "and by reproducing the official digests in corpus/kat.txt",
+        ],
+    },
 }
